@@ -109,6 +109,31 @@ def build_reassigned(f):
     return obj
 
 
+class FloorViewFitness(SingleObjFitness):
+    """a user subclass whose PUBLIC values are a view of the stored ones (floor to whole numbers): everything the
+    property says is about the values the object holds publicly"""
+
+    def _view(self):
+        return tuple(None if v is None else float(math.floor(v)) for v in self._values)
+
+    values = property(_view, SingleObjFitness.values.fset, SingleObjFitness.values.fdel)
+
+    def __hash__(self):
+        return super().__hash__()
+
+
+class HalfTolFitness(SingleObjFitness):
+    """a user subclass that overrides the tolerance hook: values within 0.5 of each other count as equal"""
+
+    @staticmethod
+    def allclose(values1, values2):
+        import numpy as np
+        return bool(np.allclose(values1, values2, rtol=0.0, atol=0.5))
+
+    def __hash__(self):
+        return super().__hash__()
+
+
 def observe(f, g, mode='fresh'):
     """mode: fresh = two independently built objects; same = one object on both sides (f is g);
     reassigned = the left object got its values by re-assignment after having been hashed"""
@@ -119,6 +144,10 @@ def observe(f, g, mode='fresh'):
         a = build_reassigned(f)
         if a is None:
             a = f.build()
+    return observe_objs(a, b)
+
+
+def observe_objs(a, b):
     return {
         'lt': _try(lambda: a < b), 'eq': _try(lambda: a == b), 'ne': _try(lambda: a != b),
         'le': _try(lambda: a <= b), 'gt': _try(lambda: a > b), 'ge': _try(lambda: a >= b),
@@ -237,6 +266,19 @@ def run(ctx):
         meta.append((fr, gr, o))
         ctx.count('pairs', key=('selector', f.key(), g.key(), repr(sel)), nontrivial=True, kind='selector', length=fr.n(),
                   infinite=(fr.has_inf() or gr.has_inf()))
+    # user subclass overriding the public `values`: the case shown to Coq holds the PUBLIC values (floors), the objects
+    # store the raw ones (0 and 2^-40, 1 and 1 + 2^-20 ... share their public values)
+    single = [f for f in fs if f.kind == 'S' and f.is_valid() and not f.has_inf()]
+    view_pairs = [(f, g) for f in single for g in single if f.n() == g.n()]
+    ctx.rng.shuffle(view_pairs)
+    for f, g in view_pairs[:ctx.budget(400, 4000)]:
+        a, b = FloorViewFitness(f.a, *f.b), FloorViewFitness(g.a, *g.b)
+        fl = lambda x: float(math.floor(x))
+        fv, gv = F('S', fl(f.a), tuple(fl(x) for x in f.b)), F('S', fl(g.a), tuple(fl(x) for x in g.b))
+        o = observe_objs(a, b)
+        cases.append('(%s, %s, %s)' % (fv.coq(), gv.coq(), obs_coq(o)))
+        meta.append((fv, gv, o))
+        ctx.count('pairs', key=('view', f.key(), g.key()), nontrivial=True, kind='subclass-view', length=fv.n(), infinite=False)
     ctx.set_exhaustive('pairs', exhaustive)
     # canary: a deliberately wrong observation must be flagged by the model
     f, g = F('S', 1.0, ()), F('S', 2.0, ())
@@ -244,6 +286,26 @@ def run(ctx):
     o['gt'] = not o['gt']
     cases.append('(%s, %s, %s)' % (f.coq(), g.coq(), obs_coq(o)))
     ctx.canaries += 1
+    # user subclass overriding the tolerance hook (Fitness.allclose): judged with the model / clauses instantiated with
+    # that closeness test (Fitness/FitnessTol.v; the stock instance is the model of Fitness.v by reflexivity)
+    tol_cases, tol_meta = [], []
+    tol_pairs = [(f, g) for f in single for g in single]
+    ctx.rng.shuffle(tol_pairs)
+    for f, g in tol_pairs[:ctx.budget(400, 4000)]:
+        a, b = HalfTolFitness(f.a, *f.b), HalfTolFitness(g.a, *g.b)
+        o = observe_objs(a, b)
+        tol_cases.append('(%s, %s, %s)' % (f.coq(), g.coq(), obs_coq(o)))
+        tol_meta.append((f, g, o))
+        ctx.count('pairs', key=('tolerance-hook', f.key(), g.key()), nontrivial=(f.n() == g.n()), kind='subclass-tolerance',
+                  length=max(f.n(), g.n()), infinite=False)
+    tol_res = ctx.coq_cases('pairs_tol', REQ + ['Fitness.FitnessTol'],
+                            'fun c => match c with (f, g, o) => [agree_c cl_half f g o; holds_c cl_half f g o] end', tol_cases, 2)
+    for (f, g, o), (ag, ho) in zip(tol_meta, tol_res):
+        case = {'f': f.key(), 'g': g.key(), 'observed': o, 'subclass': 'HalfTolFitness'}
+        if not ho:
+            ctx.violate('pairs', case, 'fitness comparison of a subclass overriding the tolerance hook violates the ordering laws (with its own tolerance)')
+        if not ag:
+            ctx.disagree('pairs', case, 'model (instantiated with the overridden tolerance) and implementation differ')
     res = ctx.coq_cases('pairs', REQ, 'fun c => match c with (f, g, o) => [agree f g o; holds_b f g o] end', cases, 2)
     if res[-1] == (False, False):
         ctx.canaries_caught += 1
